@@ -94,6 +94,22 @@ def rule_fp_results(ctx: Ctx) -> None:
     fi = ctx.func(ORQ + "_get_fp_object_results")
     paths = enum_paths(ctx, fi)
     lps = loops_of(paths)
+    if not lps:
+        # the same map written as a comprehension
+        done = False
+        for p in paths:
+            rv = p.retval
+            if isinstance(rv, ast.Name) or rv is None:
+                rv = next((e.value for e in reversed(p.effects) if e.kind == "assign" and rv is not None and e.recv == strip_v(S(rv))), p.env.get(strip_v(S(rv))) if rv is not None else None)
+            if isinstance(rv, ast.ListComp) and len(rv.generators) == 1 and not rv.generators[0].ifs and S(rv.generators[0].iter) == "estimated_objects" and isinstance(rv.elt, ast.Call) and S(rv.elt.func) == "DynamicObjectWithPerceptionResult":
+                v = U(rv.generators[0].target)
+                kw = {k.arg: S(k.value) for k in rv.elt.keywords}
+                pos = [S(a) for a in rv.elt.args]
+                ok = kw.get("estimated_object", pos[0] if pos else None) == v and kw.get("ground_truth_object", pos[1] if len(pos) > 1 else None) == "None"
+                ctx.check(ok, "C01-fp-results", "_get_fp_object_results", "map", "not exactly one GT-less result per estimate, unconditionally and in order", fi=fi)
+                done = True
+        ctx.require(done, "_get_fp_object_results: neither the map loop nor an equivalent comprehension over estimated_objects was recognised")
+        return
     ctx.require(len(lps) == 1 and S(lps[0].text) == "estimated_objects", "_get_fp_object_results: map loop over estimated_objects not recognised")
     var = U(lps[0].node.target)
     for bp in lps[0].body:
